@@ -117,6 +117,9 @@ pub fn server_with(state: &HashMap<String, String>, ext: &str, sequential: bool)
     let mut configuration = Configuration::default();
     configuration.markdown = MarkdownOptions { refs_extension: ext.to_string() };
     let via = VIA.with(|v| v.get());
+    // the edit notifications address notes by URI: names that need percent-encoding are finding D15 (C14), such
+    // libraries are loaded at start-up only
+    let via = if state.keys().all(|k| k.chars().all(|c| c.is_ascii_alphanumeric() || "/._-~".contains(c))) { via } else { Via::Import };
     let initial = match via {
         Via::Incremental => HashMap::new(),
         Via::Stale => stale_state(state),
@@ -127,11 +130,17 @@ pub fn server_with(state: &HashMap<String, String>, ext: &str, sequential: bool)
     if via != Via::Import {
         let mut keys: Vec<&String> = state.keys().collect();
         keys.sort();
-        for k in keys {
-            server.handle_did_change_text_document(DidChangeTextDocumentParams {
-                text_document: VersionedTextDocumentIdentifier { uri: uri(k), version: 1 },
-                content_changes: vec![TextDocumentContentChangeEvent { range: None, range_length: None, text: state[k].clone() }],
-            });
+        // the editor's two ways to deliver a text: didChange, and didSave with the text included (every other note)
+        let nkeys = keys.len();
+        for (i, k) in keys.into_iter().enumerate() {
+            if (i + nkeys) % 2 == 0 {
+                server.handle_did_change_text_document(DidChangeTextDocumentParams {
+                    text_document: VersionedTextDocumentIdentifier { uri: uri(k), version: 1 },
+                    content_changes: vec![TextDocumentContentChangeEvent { range: None, range_length: None, text: state[k].clone() }],
+                });
+            } else {
+                server.handle_did_save_text_document(DidSaveTextDocumentParams { text_document: TextDocumentIdentifier { uri: uri(k) }, text: Some(state[k].clone()) });
+            }
         }
     }
     server
